@@ -161,6 +161,18 @@ class Gates:
         if len(ds) != 1 or ds[0][0] != "assign":
             return None
         rv = ds[0][3]
+        cmp_local = 0
+        for _ in range(4):
+            # `let unique = count.load(..) == 1; ...; unique`: the returned bool is a plain copy of the comparison's result
+            if rv["k"] == "use" and operand_place(rv["op"]) is not None and not operand_place(rv["op"])["p"]:
+                cmp_local = operand_place(rv["op"])["l"]
+                d1 = B.single_def(cmp_local)
+                if not d1 or d1[0] != "assign":
+                    return None
+                rv = d1[3]
+            else:
+                break
+        self._last_cmp_local = cmp_local
         if rv["k"] != "binop" or rv["op"] not in ("Eq", "Ne", "Lt", "Le", "Gt", "Ge"):
             return None
         va, vb = B.const_value(rv["a"]), B.const_value(rv["b"])
@@ -179,8 +191,44 @@ class Gates:
         if callee in self.loaders:
             return rv["op"], callee, k
         if atomics.atomic_class(t) == model.ATOMIC_LOAD and atomics.receiver_is_count(self.F, B, t):
-            return rv["op"], ("inline-load", atomics.ordering_of(B, t["args"][1]) if len(t["args"]) > 1 else None), k
+            ordr = atomics.ordering_of(B, t["args"][1]) if len(t["args"]) > 1 else None
+            if ordr not in atomics.ACQUIRE_OK and rv["op"] == "Eq" and k == 1 and self._fence_on_true(B, cmp_local):
+                ordr = "Acquire"  # a Relaxed load followed, on the `== 1` outcome, by `atomic::fence(Acquire)`: an acquire operation
+            return rv["op"], ("inline-load", ordr), k
         return None
+
+    def _fence_on_true(self, B, cmp_local):
+        """`if unique { atomic::fence(Acquire) }` (a real fence, not `compiler_fence`): on the edge where the comparison is true no
+        `return` is reachable without passing an acquire fence - or the fence is unconditional between load and return."""
+        fences = [bi for bi, t in B.calls() if atomics.atomic_class(t) == model.FENCE and (atomics.callee_of(t) or "").endswith("atomic::fence") and atomics.ordering_of(B, t["args"][0]) in atomics.ACQUIRE_OK]
+        if not fences:
+            return False
+        rets = [bi for bi, bl in enumerate(B.blocks) if bl["term"]["k"] == "return"]
+
+        def reach_ret_avoiding(start):
+            seen, todo = set(), [start]
+            while todo:
+                x = todo.pop()
+                if x in seen or x in fences:
+                    continue
+                seen.add(x)
+                if x in rets:
+                    return True
+                todo.extend(B._succ_normal[x])
+            return False
+
+        for bi, bl in enumerate(B.blocks):
+            tt = bl["term"]
+            if tt["k"] != "switch":
+                continue
+            pl = operand_place(tt["discr"])
+            if pl is None or pl["p"] or (pl["l"] != cmp_local and B.origin_local(pl["l"]).get("local") != cmp_local):
+                d1 = B.single_def(pl["l"]) if pl is not None and not pl["p"] else None
+                if not (d1 and d1[0] == "assign" and d1[3]["k"] == "use" and (operand_place(d1[3]["op"]) or {}).get("l") == cmp_local):
+                    continue
+            true_tgts = [tg for tg, tv in B.switch_truth(tt).items() if tv]
+            return bool(true_tgts) and all(not reach_ret_avoiding(tg) for tg in true_tgts)
+        return not reach_ret_avoiding(0)
 
 
 def gate_cuts(F, G, B, E=None):
